@@ -11,7 +11,7 @@ CLAIMED = {
             'Static: every noexcept frame / destructor of the program (all 48 units, executor and parallel build) is proved free of '
             'input-dependent throwing paths; every character-reading loop of the lexer is proved to leave the loop when the input ends. '
             'Decides the "terminates the process / hangs on bad input" clauses structurally at every site; it does not decide assertion '
-            'trips, general memory safety or search termination. A syntax-tree node pointer handed to an owner in the parser is re-assigned before it is handed over again (no double delete at teardown).',
+            'trips, general memory safety or search termination. A syntax-tree node pointer handed to an owner in the parser is re-assigned before it is handed over again (no double delete at teardown). The keyed accesses of the noexcept ov_theory::new_eq range over the intersection of the two domains (C14.R2, evaluated as C18.R4).',
             'Trusts clang 14 name/overload resolution and the source tables of throwing std functions and partial name look-ups listed in orv/cg.py.',
             'DESIGN.md 4 C18'),
     'C08': ('undo-log typestate over stores to backtrackable state (who-may-write table, save-before-write with same key and current value, first-write-wins, overwrite-restore, push/pop pairing)',
@@ -27,12 +27,12 @@ CLAIMED = {
     'C12': ('decision-table extraction of the relation builders checked against the algebraically derived table; IDL/RDL sibling comparison of the queries; sign-of-coefficient dataflow in bounds(lin)',
             'Static, exhaustive over the finite table: all 2 theories x 5 relations x arities 0/1/2 x sign cells return the distance constraint that the algebra of c*x + k ~ 0 dictates '
             '(from, to, constant sign, strictness), with the normalising division, the difference-form and integrality guards; sibling agreement of bounds/distance/equates/lb/ub; '
-            'bounds(c*x) respects the sign of c. The sign conventions of distance(lin,lin)/equates are not decided (DESIGN 4 C12). The negation table of propagate(lit) (meaning of a false relation literal) is evaluated here too.',
+            'bounds(c*x) respects the sign of c. The sign conventions of distance(lin,lin)/equates are not decided (DESIGN 4 C12). The negation table of propagate(lit) (meaning of a false relation literal) is evaluated here too, and so is the whole rule pack of C10 (a relation literal left open is decided by the propagation of the DL theory).',
             'Trusts the meaning of new_distance(from,to,d) as to - from <= d (checked by C10.R2).', 'DESIGN.md 4 C12'),
     'C13': ('clause-schema extraction of the reified constructors compared with the Tseitin specification; freshness of the defined literal; decision table of the root shortcuts; cache-key dataflow',
             'Static, exhaustive over the finite specification: the set of clause schemas posted by new_eq/new_conj/new_disj/new_at_most_one (pairwise and product grid)/new_exct_one equals the '
             'Tseitin definition; the defined literal is fresh; the 9 root-value cells of new_eq; cache tag/key/lookup/store discipline; routing from core. The root-true arms of the cardinality '
-            'constructs and the grid arithmetic are not decided. The product grid has a cell for every literal (columns = ceil(n / rows)).',
+            'constructs and the grid arithmetic are not decided. The product grid has a cell for every literal (columns = ceil(n / rows)). The path tables of bool_item / arith_item / var_item::new_eq (TRUE_lit only for the item itself; an operand of the same kind gets the equality the sat core / theory builds, under no further test).',
             'Trusts the Tseitin specification written in orv/rules/C13.py; clause order and local names are irrelevant (roles are found structurally).', 'DESIGN.md 4 C13'),
     'C14': ('clause-schema and decision-table extraction of ov_theory; who-may-call rule for the waived exactly-one with delegation check along the call path',
             'Static: new_var binds a fresh literal per value and posts the exactly-one unit clause exactly when asked; new_eq posts exactly the clauses that make the literal mean '
@@ -41,7 +41,7 @@ CLAIMED = {
     'C11': ('four-way sibling comparison of the LRA relation builders with their table row abstracted + direct table-cell checks + dual check of lb/ub(lin) + routing check',
             'Static, exhaustive over the 4x7 table: epsilon of the right-hand side, already-true/false tests on expression and slack, constraint kind and cache-key text of new_lt/leq/geq/gt; '
             'the four builders are otherwise the same function; new_eq = geq and leq; lb/ub(lin) select bounds by coefficient sign; new_var(lin) seeds the slack from the expression; core routes by type. '
-            'Injectivity of the printed-expression cache key is not decided.',
+            'The rule pack of C15 (exact lin / rational arithmetic, no zero coefficient kept, the sign printed by the sharing key to_string(lin)) is evaluated here too; full injectivity of the printed key is not decided.',
             'Trusts the semantics of assertion(op, slack, c) established by C09.R3.', 'DESIGN.md 4 C11'),
     'C09': ('dual comparison (lb<->ub token map) of the six LRA bound routines and the two arms of check(); explanation-completeness patterns; decision table of propagate; writer table and effect patterns of pivot/update',
             'Static: upper-bound code is the exact dual of lower-bound code (so a one-sided edit is always seen); the primal explanations name every term of the row with the bound selected by the '
@@ -51,7 +51,7 @@ CLAIMED = {
     'C15': ('symbolic field-dependency analysis with polarity of every arithmetic operator of lin / inf_rational on every path, compared with the algebra; fresh-container .at() typestate; dual/delegation patterns of rational',
             'Static: for all 45 operator paths of smt::lin and smt::inf_rational the symbolic value of each result field equals the algebra of the operator (sign, which field a scalar goes to, scaling of every '
             'coefficient and the constant), which also forces const and compound forms to agree; no .at() on a container created empty in the same function; rational comparisons are mutual duals, '
-            'subtraction/division delegate to addition/multiplication of the negated / sign-normalised reciprocal operand; normalize() canonicalises. '
+            'subtraction/division delegate to addition/multiplication of the negated / sign-normalised reciprocal operand; normalize() canonicalises; rational a += b distinguishes exactly the cases of a + b and normalises its general case; smt::lin erases a coefficient that becomes zero on every path; to_string(lin) (the slack-sharing key) prints every term with the sign of its own coefficient. '
             'Canonical form on all values, comparisons between opposite infinities and overflow are not decided.',
             'The special-value fast paths (x*0, x/inf) are accepted when guarded by an explicit test of the scalar.', 'DESIGN.md 4 C15'),
     'C07': ('CFG path counting (exactly-one watch re-registration on every path), decision tables of new_clause / enqueue / simplify, must-pass and ordering rules over sat_core::propagate / next / check, pattern facts of analyze and record',
@@ -78,12 +78,12 @@ CLAIMED = {
     'C04': ('solution-gate CFG rule + structural rules of the state-variable checker: peak test, unconditional per-pair reporting, canonical-expression check of the ordering literals, sweep sibling agreement, listener exhaustiveness',
             'Static: a plan is only reported after the timeline check that follows the last decision; the check considers exactly the active atoms, treats two overlapping atoms as a peak, reports every overlapping pair '
             '(also with no choice left), offers both orderings; the ordering literal leqs[X][Y] is end(X) <= start(Y) at all 8 stores; checker and timeline extractor sweep alike; listeners cover every parameter kind. '
-            'Completeness of the to_check bookkeeping on arbitrary histories is not decided. solver::new_atom reaches every smart type among all transitive supertypes; the re-check set only grows.',
+            'Completeness of the to_check bookkeeping on arbitrary histories is not decided. solver::new_atom reaches every smart type among all transitive supertypes; the re-check set only grows; the atom listener also listens to sigma; every value-change notification of the theories goes to the listeners of the variable that changed.',
             'Rests on C01.R1/R2 (gate) and C11 (meaning of new_leq).', 'DESIGN.md 4 C04'),
     'C05': ('solution-gate CFG rule + structural rules of the reusable-resource checker: unconditional usage accumulation over all overlapping atoms, strict peak test against the instance capacity, MCS window, no-unification clause, synthetic constraints, ordering literals',
             'Static: usage is the sum of the amounts of all active overlapping Use atoms, compared strictly with the capacity of that instance; every minimal conflict set found is reported unconditionally; '
             'the extracted timeline accumulates the same way; Use atoms are never unified; capacity >= 0 and amount >= 0 are part of the synthetic constructor / predicate; ordering literals as in C04. '
-            'Optimality of the MCS enumeration is not decided. solver::new_atom reaches every smart type among all transitive supertypes; the re-check set only grows.',
+            'Optimality of the MCS enumeration is not decided. solver::new_atom reaches every smart type among all transitive supertypes; the re-check set only grows; every value-change notification of the theories goes to the listeners of the variable that changed.',
             'Rests on C01.R1/R2 (gate) and C11.', 'DESIGN.md 4 C05'),
     'C06': ('linear-atom normalisation of the configured INIT_STRING (LA and DL forms) against the required temporal constraints; CFG typestate of the fact arm of every smart type (set_ni / apply_rule / restore_ni); who-must-call rule for rule application',
             'Static: the temporal rule the build actually configures contains origin <= start <= end <= horizon, duration = end - start >= 0 (LA) / the DL form, and origin <= at <= horizon, for any re-ordering or superset; '
